@@ -1,11 +1,23 @@
 #!/bin/bash
-# mutant_run.sh <seeded-id> <tier> <PROP>...   — apply /verif/seeded/<id>/patch.diff to /repo, run the checks,
-# undo. Evidence of these runs goes to a scratch directory, never to /verif/evidence.
+# mutant_run.sh <seeded-id> <tier> <PROP>...   — run checks against an archived seeded change.
+# Default: git -C /repo apply the patch, run the checks, git -C /repo checkout -- . (as the brief prescribes).
+# TREE=1: apply the patch in a scratch worktree of /repo under /tmp instead and build the workers against it
+# (VERIF_REPO_DIR), so that /repo is not touched while background runs are using it.
+# Evidence of these runs goes to a scratch directory, never to /verif/evidence.
 ID=$1; TIER=$2; shift 2
-cd /repo && [ -z "$(git status --porcelain)" ] || { echo "/repo not clean"; exit 2; }
-git -C /repo apply /verif/seeded/$ID/patch.diff || exit 2
-trap 'git -C /repo checkout -- .' EXIT
 export VERIF_EVIDENCE_DIR=/tmp/mutant-evidence-$ID; mkdir -p $VERIF_EVIDENCE_DIR
+if [ -n "$TREE" ]; then
+  W=/tmp/mutant-tree-$ID
+  git -C /repo worktree remove --force $W 2>/dev/null
+  git -C /repo worktree add -q --detach $W HEAD || exit 2
+  trap 'git -C /repo worktree remove --force $W 2>/dev/null' EXIT
+  git -C $W apply /verif/seeded/$ID/patch.diff || exit 2
+  export VERIF_REPO_DIR=$W
+else
+  cd /repo && [ -z "$(git status --porcelain)" ] || { echo "/repo not clean"; exit 2; }
+  git -C /repo apply /verif/seeded/$ID/patch.diff || exit 2
+  trap 'git -C /repo checkout -- .' EXIT
+fi
 for P in "$@"; do
   /verif/check.sh $P $TIER > /tmp/mutant-$ID-$P.out 2>&1; RC=$?
   echo "seeded=$ID check=$P tier=$TIER exit=$RC violations=$(grep -ac '^VIOLATION' /tmp/mutant-$ID-$P.out)"
